@@ -139,7 +139,9 @@ def pool(cfg):
          # equal under == to p[0] (and hash-equal), but the index is not an int
          [("state", 0), ("povm", 0.0)], [("state", False), ("povm", 0)], [("state", 0), ("povm", np.int64(0))],
          # iterables that are not sequences: generator / dict / set with fine items, with a malformed item, too short
-         NS("gen", [("state", 0), ("povm", 0)]), NS("dict", [("state", 0), ("povm", 0)]), NS("set", [("state", 0), ("povm", 0)]),
+         NS("gen", [("state", 0), ("povm", 0)]), NS("dict", [("state", 0), ("povm", 0)]),
+         # (a set iterates in hash order: only sets whose items are all fine, so the verdict does not depend on that order)
+         NS("set", [("state", 0), ("povm", 0)] if ns > 0 and npv > 0 else [("state", 0)]),
          NS("gen", [("state", 0), ("povm", npv)]), NS("dict", [("state", 0), ("gate", ng), ("povm", 0)]),
          NS("set", [("state", 0)]), NS("dict", [])]
     return p
